@@ -13,3 +13,6 @@ import OLP.Props.C06
 import OLP.Props.C07
 import OLP.Props.C08
 import OLP.Props.C09
+import OLP.Ons.Model
+import OLP.Ons.Lemmas
+import OLP.Props.C20
